@@ -48,6 +48,23 @@ class Harness:
         env = Env(dict(BUILTIN_ENV))
         if env_extra:
             env.vars.update(env_extra)
+        relpath = fuc.ex.relpath
+        harness = self
+
+        def fallback(name, root):
+            # a module-level helper *function* of the same file that has no contract of its own is inlined
+            # (reported in the evidence); anything else stays unmodelled
+            try:
+                sub = harness.fn(relpath, name)
+            except Exception:
+                return NotImplemented
+            if not isinstance(sub.ex.node, ast.FunctionDef) or sub.ex.cls is not None:
+                return NotImplemented
+            note = f'inlined helper {relpath}:{name} (no contract of its own)'
+            if note not in harness.notes:
+                harness.notes.append(note)
+            return Closure(interp, sub.ex.node, root, name)
+        env.vars['__fallback__'] = fallback
         return Closure(interp, fuc.ex.node, env, fuc.ex.qualpath.split('.')[-1])
 
     # ------------------------------------------------------------------ running
@@ -65,6 +82,14 @@ class Harness:
             self.t_gen += time.time() - t0
             return None
         fuc.paths += len(results)
+        # an exception that escapes the contract body on some path is either a gap of the object models or a crash the
+        # change introduced: that path is undecided (out-of-subset), never silently dropped
+        for r in results:
+            if r.outcome == 'raise' and 'expected-raise' not in r.ctx.notes:
+                why = f'a path raised {type(r.value).__name__}: {r.value}'[:200]
+                if (base, why) not in self.out_of_subset:
+                    self.out_of_subset.append((base, why))
+                fuc.out_of_subset = why
         if not any(r.ctx.obligations for r in results):
             why = '; '.join(sorted({f'{type(r.value).__name__}: {r.value}'[:160] for r in results if r.outcome == 'raise'}))
             self.vacuous.append(base + (f' [every path raised: {why}]' if why else ''))
